@@ -2,7 +2,7 @@
    that composes the stage derivatives is the standard mathematical step not re-proved here). *)
 From Coq Require Import Reals.
 From Coquelicot Require Import Coquelicot.
-From PW Require Import Base.Ops Base.Sum Base.Sig Base.Tensor Model.Dwt Model.Dtcwt Model.Scat Proofs.ScatProofs Proofs.SmagReal.
+From PW Require Import Base.Ops Base.Sum Base.Sig Base.Tensor Model.Dwt Model.Dtcwt Model.Scat Proofs.DwtNF Proofs.ScatProofs Proofs.SmagReal Proofs.SymExt Proofs.DtcwtAdj2D Proofs.ScatVJP.
 Local Open Scope Z_scope.
 
 (* the saved factors re/r, im/r ARE the partial derivatives of the smooth magnitude *)
@@ -33,3 +33,45 @@ Theorem C09_avgpool_adjoint :
             (rmul Op (tf x n c (2*i+1) (2*j+1)) (tf (up2q Op X g) n c (2*i+1) (2*j+1))).
 Proof. intros T Op Rth X x g n c i j. exact (avgpool_up_adjoint Op Rth X x g n c i j). Qed.
 Print Assumptions C09_avgpool_adjoint.
+
+(* the whole backward pass of the first-order layer (greyscale, plain filter family), on the model: it is the adjoint of the
+   linearisation of the forward pass.  For every input x, direction h and cotangent dZ (channels [0,C): pooled lowpass, C + o*C + c:
+   orientation o of channel c):
+     < avgpool(ll(h)), dZ_low > + sum_o < re_o(h), dZ_o * re_o(x)/r_o(x) > + < im_o(h), dZ_o * im_o(x)/r_o(x) >  =  < h, backward(x, dZ) >
+   with (ll, re_o, im_o) the level-1 DTCWT and r_o = sqrt(re_o^2 + im_o^2 + b^2); cot_planes / phases are the model's own definitions of
+   dZ_o * phase (C09_smag_dx/dy: the phases are the partial derivatives of the smooth magnitude).  Any ring where 2 cancels. *)
+Theorem C09_scat_j1_vjp :
+  forall (T:Type) (Op:Ops T) (Rth:RingOk Op) (X:XOps T)
+  (b:T) (L0 L1:Z) (h0 h1:Z->T), 1 <= L0 /\ L0 mod 2 = 1 -> 1 <= L1 /\ L1 mod 2 = 1 -> Symmetric L0 h0 -> Symmetric L1 h1 ->
+  (forall a c:T, rmul Op (radd Op (r1 Op) (r1 Op)) a = rmul Op (radd Op (r1 Op) (r1 Op)) c -> a = c) ->
+  forall (x h dZ:@ten T), 2 <= tH x -> tH x mod 2 = 0 -> 2 <= tW x -> tW x mod 2 = 0 -> 0 < tC x ->
+  tN h = tN x -> tC h = tC x -> tH h = tH x -> tW h = tW x ->
+  tN dZ = tN x -> tC dZ = 7 * tC x -> tH dZ = tH x / 2 -> tW dZ = tW x / 2 ->
+  let C := tC x in let H2 := tH x / 2 in let W2 := tW x / 2 in
+  let dYl := force Op (t_chmap C (fun c => c) dZ) in
+  let dr := force Op (t_chmap (tC dZ - C) (fun c => C + c) dZ) in
+  is_ok (fwd_j1 Op (xs_ X) x L0 h0 L1 h1 false M_SYMM) (fun rx =>
+  let cot := cot_planes Op false C dr (phases Op X b false C (snd rx)) in
+  is_ok (fwd_j1 Op (xs_ X) h L0 h0 L1 h1 false M_SYMM) (fun rh =>
+  is_ok (scat_j1_bwd Op X b false false x dZ L0 h0 L1 h1 L1 h1 M_SYMM) (fun dx =>
+    shaped x (tH x) (tW x) dx /\
+    forall n c, 0 <= c < C ->
+      radd Op (radd Op (radd Op (dot2 Op H2 W2 (avgpool2 Op X (fst rh)) dYl n c)
+        (radd Op (radd Op (radd Op (dot2 Op H2 W2 (pl Op (snd rh) 0 0) (pl Op cot 0 0) n c) (dot2 Op H2 W2 (pl Op (snd rh) 0 1) (pl Op cot 0 1) n c))
+                          (dot2 Op H2 W2 (pl Op (snd rh) 5 0) (pl Op cot 5 0) n c)) (dot2 Op H2 W2 (pl Op (snd rh) 5 1) (pl Op cot 5 1) n c)))
+        (radd Op (radd Op (radd Op (dot2 Op H2 W2 (pl Op (snd rh) 2 0) (pl Op cot 2 0) n c) (dot2 Op H2 W2 (pl Op (snd rh) 2 1) (pl Op cot 2 1) n c))
+                          (dot2 Op H2 W2 (pl Op (snd rh) 3 0) (pl Op cot 3 0) n c)) (dot2 Op H2 W2 (pl Op (snd rh) 3 1) (pl Op cot 3 1) n c)))
+        (radd Op (radd Op (radd Op (dot2 Op H2 W2 (pl Op (snd rh) 1 0) (pl Op cot 1 0) n c) (dot2 Op H2 W2 (pl Op (snd rh) 1 1) (pl Op cot 1 1) n c))
+                          (dot2 Op H2 W2 (pl Op (snd rh) 4 0) (pl Op cot 4 0) n c)) (dot2 Op H2 W2 (pl Op (snd rh) 4 1) (pl Op cot 4 1) n c))
+      = dot2 Op (tH x) (tW x) h dx n c))).
+Proof. exact @scat_j1_vjp. Qed.
+Print Assumptions C09_scat_j1_vjp.
+(* what the cotangent planes are: dZ_o times the saved phase *)
+Theorem C09_cot_plane :
+  forall (T:Type) (Op:Ops T) (C:Z) (dr:@ten T) (ph:list (@ten T)) o ri, 0 <= o < 6 -> 0 <= ri < 2 ->
+  let a := pl Op ph o 0 in
+  pl Op (cot_planes Op false C dr ph) o ri
+  = force Op (mkT (tN a) (tC a) (tH a) (tW a) (fun n c i j => rmul Op (tf dr n (o*C + c) i j) (tf (pl Op ph o ri) n c i j))).
+Proof. intros T Op C dr ph o ri Ho Hri. exact (cot_nth Op C dr ph o ri Ho Hri). Qed.
+Print Assumptions C09_cot_plane.
+
